@@ -144,9 +144,22 @@ def coerce(v, ty):
         for sub, want in zip(tuple_items(v), ty.args):
             parts += coerce(sub, want).parts
         return Val(ty, parts)
-    if ty.kind == "opaque" and v.ty.kind in ("name", "str", "int"):
+    if ty.kind == "opaque" and v.parts:
         return to_opaque(v)
+    if ty.kind == "opaque" and v.ty.kind == "empty":
+        return opaque_const("empty:" + v.ty.name)
+    if ty.kind == "name" and v.ty.kind == "opaque":
+        return Val(T.NAME, [_name_of_opaque()(v.t)])
     raise UnsupportedError(f"cannot use a value of type {v.ty} where {ty} is declared")
+
+
+_noo = []
+
+
+def _name_of_opaque():
+    if not _noo:
+        _noo.append(z3.Function("name_of_opaque", T.OpaqueSort, T.NameSort))
+    return _noo[0]
 
 
 _to_opaque_fns = {}
